@@ -13,12 +13,14 @@ EXTENDS Naturals, Sequences, FiniteSets, TLC, Json
 CONSTANTS EntryPoints, Defused, MaxConstructs
 
 EntityDecls == {"entity_internal", "entity_external_file", "entity_external_http", "entity_parameter", "entity_chain"}
-Harmless   == {"doctype_plain", "external_dtd", "xinclude", "stylesheet_pi", "utf16", "bom"}
+\* decl_latin1 / decl_utf16text: the document is handed over as text whose XML declaration names another
+\* encoding than the one the text will be encoded in
+Harmless   == {"doctype_plain", "external_dtd", "xinclude", "stylesheet_pi", "utf16", "bom", "decl_latin1", "decl_utf16text"}
 Malformed  == {"truncate_open_tag", "truncate_mid_text", "truncate_before_close", "not_xml", "empty"}
 Constructs == EntityDecls \cup Harmless \cup Malformed
 \* constructs that cannot be combined in one document
 Compatible(w) == /\ Cardinality(w \cap Malformed) <= 1
-                 /\ Cardinality(w \cap {"utf16", "bom"}) <= 1
+                 /\ Cardinality(w \cap {"utf16", "bom", "decl_latin1", "decl_utf16text"}) <= 1
                  /\ Cardinality(w \cap (EntityDecls \cup {"doctype_plain", "external_dtd"})) <= 1     \* one DOCTYPE
                  /\ ("not_xml" \in w \/ "empty" \in w => Cardinality(w) = 1)
 Words == {w \in SUBSET Constructs : Cardinality(w) <= MaxConstructs /\ Compatible(w)}
@@ -32,6 +34,7 @@ Parse == /\ pc = "parse" /\ pc' = "done" /\ UNCHANGED <<entry, word>>
                  THEN IF Defused THEN outcome' = "refused" /\ io' = FALSE            \* EntitiesForbidden
                       ELSE outcome' = "object" /\ io' = FALSE                        \* plain expat: internal entities expanded
             ELSE outcome' = "object" /\ io' = FALSE
+\* a declaration that contradicts the actual encoding may be refused or parsed; with entity declarations it is refused
 MustRefuse == word \cap EntityDecls # {} \/ word \cap Malformed # {}
 Emit == /\ pc = "done" /\ pc' = "emitted" /\ UNCHANGED <<entry, word, outcome, io>>
         /\ PrintT(<<"CASE", ToJson([entry |-> entry, word |-> word, model |-> outcome, mustRefuse |-> MustRefuse])>>)
